@@ -3,6 +3,7 @@
   over M-Core; the other modules' genesis round trips live in their own packages).
 -/
 import DymVerif.Lemmas.CoreGenesis
+import DymVerif.Lemmas.CoreRoles5
 namespace DymVerif.C18
 open DymVerif DymVerif.Core
 
@@ -34,6 +35,26 @@ theorem reimport_flat_components (s : St) :
     (reimport s).seqs = s.seqs ∧ (reimport s).queue = s.queue ∧ (reimport s).seqH = s.seqH ∧
     (reimport s).lev = s.lev ∧ (reimport s).obsolete = s.obsolete ∧ (reimport s).bal = s.bal ∧
     (reimport s).modBal = s.modBal := ⟨rfl, rfl, rfl, rfl, rfl, rfl, rfl⟩
+
+/-- **Every reachable state round-trips**: for every valid parameter set (the notice period is
+    validated to be positive) and every operation sequence, exporting the genesis of the reached
+    state and importing it gives back exactly that state — so the imported chain re-exports the same
+    genesis, answers every query identically and continues identically.  The two hypotheses of
+    `export_import_identity` are discharged by the roles invariant (`run_roles`, C07). -/
+theorem export_import_reachable (p : Params) (hp : 0 < p.noticePeriod) (ops : List Op) :
+    reimport (run p ops) = run p ops := by
+  have h := run_roles p hp ops
+  apply reimport_id
+  · exact h.core.uniq.ids
+  · intro e he
+    obtain ⟨q, r, hq, hn, _, _⟩ := h.core.nq e.1 e.2 he
+    exact ⟨q, hq, hn⟩
+
+/-- … and any continuation of the imported chain equals the continuation of the original -/
+theorem continue_commutes_reachable (p : Params) (hp : 0 < p.noticePeriod) (ops more : List Op) :
+    more.foldl (fun s o => (step s o).1) (reimport (run p ops)) = run p (ops ++ more) := by
+  rw [export_import_reachable p hp ops]
+  unfold run; rw [List.foldl_append]
 
 /-- without distinct ids the round trip is NOT the identity (two records under one id collapse to the
     first one's indices): the hypothesis is needed, and `createRollapp` is what provides it -/
